@@ -326,3 +326,47 @@ def filter_cbc(xs):
 @recursive('list[str]->list[str]', fuel=1)
 def filter_etm(xs):
     return xs if len(xs) == 0 else (filter_etm(xs[:-1]) + [xs[-1]] if is_etm(xs[-1]) else filter_etm(xs[:-1]))
+
+
+# ---------------------------------------------------------------------------------------------- banners (C16)
+def printable(c):
+    """one character of printable US-ASCII (RFC 4253 section 4.2 asks for it in the identification string)"""
+    return ' ' <= c and c <= '~'
+
+
+@recursive('str->bool', fuel=1)
+def all_printable(s):
+    return True if len(s) == 0 else (all_printable(s[:-1]) and printable(s[-1]))
+
+
+@recursive('str->str', fuel=1)
+def sanitize(s):
+    """every character outside printable ASCII replaced by '?'"""
+    return '' if len(s) == 0 else sanitize(s[:-1]) + (s[-1] if printable(s[-1]) else '?')
+
+
+@recursive('str->str', fuel=1)
+def drop_unprintable(s):
+    """every character outside printable ASCII removed"""
+    return '' if len(s) == 0 else drop_unprintable(s[:-1]) + (s[-1] if printable(s[-1]) else '')
+
+
+@lemma('str', induction='s', smaller='s[:-1]', base='len(s) == 0', fuel=2)
+def sanitize_len(s):
+    return len(sanitize(s)) == len(s)
+
+
+@primitive
+def latin(b):
+    return b.decode('latin-1')
+
+
+@primitive
+def in_ascii(v):
+    return all((c if isinstance(c, int) else ord(c)) < 128 for c in v)
+
+
+@lemma('str;int', induction='s', smaller='s[:-1]', base='len(s) == 0', fuel=1)
+def all_printable_at(s, j):
+    """a string of printable characters has a printable character at every position"""
+    return implies(0 <= j and j < len(s) and all_printable(s), printable(s[j]))
